@@ -14,6 +14,8 @@ than on resolved program structure.
   opaque-locals  the same locals get meaningless names (x1_, x2_, ...)
   kw-reverse     keyword arguments of every call in reverse order
   flip-compare   a < b -> b > a, a == b -> b == a (single comparisons)
+  hoist-args     the first argument of a statement-level call is computed
+                 into a local first
   aug-assign     x += e  ->  x = x + e   for plain local names
   negate-if      if c: A else: B  ->  if not c: B else: A   (two-armed ifs
                  without elif)
@@ -226,6 +228,84 @@ def t_flip_compare(tree):
     return _Flip().visit(tree)
 
 
+class _Hoist(ast.NodeTransformer):
+    """`y = f(g(a), b)`  ->  `h1_ = g(a); y = f(h1_, b)` for the first
+    positional or keyword argument of a statement-level call that is itself
+    a call, a subscript or an arithmetic expression (evaluation order is
+    kept: the hoisted argument is the first thing the statement evaluates
+    after the callee name)"""
+
+    def __init__(self):
+        self.k = 0
+
+    def _hoist(self, st, call):
+        if not isinstance(call, ast.Call) or not isinstance(
+                call.func, (ast.Name, ast.Attribute)):
+            return [st]
+        # the callee expression must be a plain dotted name
+        f = call.func
+        while isinstance(f, ast.Attribute):
+            f = f.value
+        if not isinstance(f, ast.Name):
+            return [st]
+        if any(isinstance(a, ast.Starred) for a in call.args):
+            return [st]
+        cands = list(call.args[:1]) if call.args else [
+            k.value for k in call.keywords[:1] if k.arg]
+        if not cands:
+            return [st]
+        a = cands[0]
+        if not isinstance(a, (ast.Call, ast.Subscript, ast.BinOp)):
+            return [st]
+        if any(isinstance(x, (ast.Lambda, ast.NamedExpr, ast.Yield,
+                              ast.Await)) for x in ast.walk(a)):
+            return [st]
+        self.k += 1
+        nm = f'h{self.k}_'
+        pre = ast.Assign(targets=[ast.Name(id=nm, ctx=ast.Store())],
+                         value=a)
+        if call.args:
+            call.args[0] = ast.Name(id=nm, ctx=ast.Load())
+        else:
+            call.keywords[0].value = ast.Name(id=nm, ctx=ast.Load())
+        return [ast.copy_location(pre, st), st]
+
+    def _block(self, stmts):
+        out = []
+        for st in stmts:
+            st = self.generic_visit(st)
+            if isinstance(st, ast.Assign) and len(st.targets) == 1 \
+                    and isinstance(st.targets[0], ast.Name):
+                out += self._hoist(st, st.value)
+            elif isinstance(st, ast.Expr):
+                out += self._hoist(st, st.value)
+            else:
+                out.append(st)
+        return out
+
+    def visit_FunctionDef(self, n):
+        n.body = self._block(n.body)
+        return n
+
+    def visit_For(self, n):
+        n.body = self._block(n.body)
+        n.orelse = self._block(n.orelse)
+        return n
+
+    def visit_If(self, n):
+        n.body = self._block(n.body)
+        n.orelse = self._block(n.orelse)
+        return n
+
+    def visit_With(self, n):
+        n.body = self._block(n.body)
+        return n
+
+
+def t_hoist_args(tree):
+    return _Hoist().visit(tree)
+
+
 def t_opaque_locals(tree):
     return t_rename_locals(tree, suffix=None)
 
@@ -236,6 +316,7 @@ TRANSFORMS = {
     'opaque-locals': t_opaque_locals,
     'kw-reverse': t_kw_reverse,
     'flip-compare': t_flip_compare,
+    'hoist-args': t_hoist_args,
     'aug-assign': t_aug_assign,
     'negate-if': t_negate_if,
     'pad': t_pad,
